@@ -169,10 +169,24 @@ fn fresh() -> (Machine, Ref) {
     (m, rf)
 }
 
+/// reads of 0xF4-0xF8 (unused), 0xFA/0xFB (UART receive / status): no value is stated for them,
+/// but they must not alias anything: a write anywhere (RAM, ports, the UART send register at the
+/// same address) must leave what they return unchanged
+const NO_VALUE_ADDRS: [u8; 7] = [0xF4, 0xF5, 0xF6, 0xF7, 0xF8, 0xFA, 0xFB];
+
+fn no_value_reads(m: &Machine) -> [u8; 7] {
+    let mut out = [0u8; 7];
+    for (i, a) in NO_VALUE_ADDRS.iter().enumerate() {
+        out[i] = m.bus().read(*a);
+    }
+    out
+}
+
 fn run_history(ops: &[Op], ctx: &mut Ctx) -> Result<(), Violation> {
     let (mut m, mut rf) = fresh();
     let mut last_writer: [u8; 256] = [0; 256];
     for (i, op) in ops.iter().enumerate() {
+        let nv_before = no_value_reads(&m);
         match op {
             Op::S(s) => {
                 let f9_before = m.bus().read(0xF9);
@@ -233,12 +247,18 @@ fn run_history(ops: &[Op], ctx: &mut Ctx) -> Result<(), Violation> {
         if let Some(d) = map_diff(&m, &rf) {
             return Err(v("address-map", i, format!("after {:?}: {}", op, d)));
         }
+        let nv_after = no_value_reads(&m);
+        if nv_after != nv_before {
+            let k = (0..7).find(|k| nv_after[*k] != nv_before[*k]).unwrap();
+            return Err(v("alias", i, format!("{:?} changed what read(0x{:02X}) returns: 0x{:02X} -> 0x{:02X}", op, NO_VALUE_ADDRS[k], nv_before[k], nv_after[k])));
+        }
         ctx.tr(mix(i as u64, m.bus().read(0xFE) as u64));
     }
     Ok(())
 }
 
 fn run_single_writes(byte: u8, ctx: &mut Ctx) -> Result<(), Violation> {
+    let nv0 = no_value_reads(&fresh().0);
     for a in 0..=255u8 {
         let (mut m, mut rf) = fresh();
         // distinct background so that leaks are visible
@@ -263,6 +283,9 @@ fn run_single_writes(byte: u8, ctx: &mut Ctx) -> Result<(), Violation> {
         }
         if let Some(d) = map_diff(&m, &rf) {
             return Err(v("address-map", a as usize, format!("after write(0x{:02X}, 0x{:02X}): {}", a, byte, d)));
+        }
+        if no_value_reads(&m) != nv0 {
+            return Err(v("alias", a as usize, format!("RAM pattern + write(0x{:02X}, 0x{:02X}) changed what reads of 0xF4-0xF8/0xFA/0xFB return: {:02X?} -> {:02X?}", a, byte, nv0, no_value_reads(&m))));
         }
         ctx.cov.extra("single-write-cases", 1);
     }
